@@ -1,4 +1,5 @@
 import FpgoVerif.Proofs.C01Lemmas
+import FpgoVerif.Gen.MaybeInventory
 /-! Property theorems for C01 — "Maybe: one consistent notion of absence, monad laws, total (never panics)".
 
     All theorems are about the definitions of `Model/C01Maybe.lean` that the driver executes (`mk`, `just`,
@@ -421,5 +422,27 @@ example : ArgOK (α := MaybeV) (.ptr (.int .int) (some 0)) [.int .int 7, .int .i
 example : (do let ind ← indirect [] (valueOf (.ptr (.int .int) none)); ind.interface : R GoVal) =
     .error "reflect: call of reflect.Value.Interface on zero Value" := rfl
 example : (valueOf (.int .int 3)).isNil = .error "reflect: call of reflect.Value.IsNil on a non-nillable Value" := rfl
+
+/-! ### closing theorems over the inventory regenerated from maybe.go on every run (`Gen/MaybeInventory.lean`) -/
+
+/-- every method of the interface `MaybeDef` is a method of `someDef` that the model has and the harness exercises -/
+theorem C01_gen_interface_observed :
+    Gen.maybeDefMethods.all someDefMethodNames.contains = true := by decide
+
+/-- `someDef[T]` has exactly the methods the model mirrors -/
+theorem C01_gen_someDef_methods :
+    sameSet (Gen.someDefMethods.map (·.1)) someDefMethodNames = true := by decide
+
+/-- `noneDef` overrides exactly the methods listed in `noneOverrides` (all others are promoted from the embedded
+    `someDef[interface{}]`, as the `none` branches of the model assume), each with the one-line body the model mirrors -/
+theorem C01_gen_none_overrides :
+    sameSet (Gen.noneDefMethods.map (·.1)) noneOverrides = true ∧
+    Gen.noneDefMethods.all noneBodies.contains = true ∧ noneBodies.all Gen.noneDefMethods.contains = true := by decide
+
+/-- every conversion of `someDef` starts with `if IsNil() { return zero, ErrConversionNil }` (or delegates to one that
+    does) and `ErrConversionNil` is mentioned nowhere else in `someDef`'s methods: what `someConv` abstracts -/
+theorem C01_gen_conversions_guarded :
+    allConversions.all (fun c => Gen.someDefMethods.any (fun e => e.1 == c && convEntryOK e)) = true ∧
+    Gen.someDefMethods.all (fun e => allConversions.contains e.1 || e.2.2.1 == 0) = true := by decide
 
 end FpgoVerif.C01
